@@ -177,7 +177,14 @@ fn truth(data: &[i64], order: u32) -> Truth {
 }
 
 fn check_type<T: MomT>(data: &[i64], xs: &[f64], e: &Embedding, t: &Truth, cfg: &Value, by_ref: bool, rep: &mut Report, spread: &mut Vec<Vec<f64>>) {
-    let got: T = if by_ref { T::par_collect_ref(xs) } else { T::par_collect_val(xs) };
+    let (min_len, max_len) = (cfg["min_len"].as_u64().unwrap_or(1) as usize, cfg["max_len"].as_u64().map(|x| x as usize).unwrap_or(usize::MAX));
+    let got: T = if max_len != usize::MAX || min_len != 1 {
+        T::par_collect_limits(xs, min_len, max_len, by_ref)
+    } else if by_ref {
+        T::par_collect_ref(xs)
+    } else {
+        T::par_collect_val(xs)
+    };
     let seq: T = T::collect_ref(xs);
     let mut o = Vec::new();
     got.observe(&mut o);
@@ -301,9 +308,13 @@ pub fn direct_rayon(seed: u64, max_n: usize, reps: usize, rep: &mut Report) {
                 }
                 let p = pool(threads);
                 let mut spread: Vec<Vec<f64>> = Vec::new();
-                for r in 0..reps {
+                // default splitting, and explicit limits that force many small leaves (every leaf
+                // costs one identity merge, every join one merge)
+                let limits: Vec<(usize, Option<usize>)> = if n <= 1000 { vec![(1, None), (1, Some(1)), (1, Some(3)), (2, Some(5))] } else { vec![(1, None), (1, Some(64))] };
+                for r in 0..reps * limits.len() {
                     let by_ref = r % 2 == 0;
-                    let cfg = json!({"embedding": ename, "n": n, "threads": threads, "repetition": r, "by_ref": by_ref, "seed": seed, "data_prefix": &data[..data.len().min(12)]});
+                    let (min_len, max_len) = limits[(r / 2) % limits.len()];
+                    let cfg = json!({"embedding": ename, "n": n, "threads": threads, "repetition": r, "by_ref": by_ref, "seed": seed, "min_len": min_len, "max_len": max_len, "data_prefix": &data[..data.len().min(12)]});
                     rep.behaviours += 1;
                     rep.nontrivial.insert(hash_str(&cfg.to_string()));
                     let guarded = std::panic::catch_unwind(std::panic::AssertUnwindSafe(|| p.install(|| {
